@@ -61,6 +61,7 @@ type Check struct {
 	configs []string
 	mutants []MutantResult
 	dups    map[string]int
+	held    map[string]bool // Config+key of obligations discharged in that configuration
 }
 
 func NewCheck(id, tier string, seed int64) *Check {
@@ -117,6 +118,15 @@ func contains(xs []string, s string) bool {
 // Ok records a discharged obligation.
 func (c *Check) Ok(rule, fn, construct, where, desc string) {
 	c.add(rule, fn, construct, where, desc, "ok", "")
+	if c.held == nil {
+		c.held = map[string]bool{}
+	}
+	c.held[c.Config+"\x00"+mkKey(rule, fn, construct)] = true
+}
+
+// Held: the obligation was discharged (by whichever form) in the configuration being analysed.
+func (c *Check) Held(rule, fn, construct string) bool {
+	return c.held[c.Config+"\x00"+mkKey(rule, fn, construct)]
 }
 
 // Fail records a violated obligation.
